@@ -24,7 +24,7 @@ STARTS = ["0", "1", "0.5", "2", "2020", "1999.5"]  # wave 2: calendar-year start
 W2_SPECS = [((None, 3), "2020"), ((None, 7), "2020"), ((None, 9), "2020"), ((None, 12), "2020"), ((None, 6), "2020"),
             ((None, 3), "0"), ((None, 7), "1"), ((None, 9), "0"), ((None, 12), "1999.5"), ((None, 6), "0.5"),
             (("0.1", None), "2020"), (("0.05", None), "2020"), (("0.2", None), "1999.5"), (("0.01", None), "2020")]
-LITS = [0.25, 0.5, 1.0, 2.0, 3.0, 0.1, 0.3, 0.7, 1.5, 4.0, 10.0, 0.05, 0.2]
+LITS = [0.25, 0.5, 1.0, 2.0, 3.0, 0.1, 0.3, 0.7, 1.5, 4.0, 10.0, 0.05, 0.2, 100000.0, 0.123456789, 7.000001]   # wave 7: large / many decimals
 CMPS = {"lt": "<", "le": "<=", "gt": ">", "ge": ">="}
 
 
@@ -978,6 +978,62 @@ def probe_builder(shapes=BUILDER_SHAPES):
     return out
 
 
+
+# wave 7: name shapes and document shape of a stock/flow structure.  The same graph (stock with two inflows, one outflow that drains
+# the stock, an auxiliary) written (a) with plain names in the root model, (b) with blanks / upper case / underscores in the names and
+# in the <inflow>/<outflow> references, (c) inside a named <model> (module): the stock's trajectory must be the same.
+def shaped_doc(variant, dt_xml):
+    if variant == "plain":
+        S, I1, I2, O, A, model_open = "level", "gain", "bonus", "drain", "factor", "<model>"
+        ri1, ri2, ro = "gain", "bonus", "drain"
+    elif variant == "names":
+        S, I1, I2, O, A, model_open = "Water Level", "Net GAIN", "bonus_x", "Drain Rate", "The Factor", "<model>"
+        ri1, ri2, ro = "Net_Gain", "BONUS_X", "drain_rate"
+    else:
+        S, I1, I2, O, A, model_open = "Water Level", "Net GAIN", "bonus_x", "Drain Rate", "The Factor", '<model name="Tank One">'
+        ri1, ri2, ro = "Net_Gain", "BONUS_X", "drain_rate"
+    u = lambda n: n.replace(" ", "_")
+    root = '<model><variables><module name="Tank One"/><aux name="unrelated"><eqn>1</eqn></aux></variables></model>' if variant == "module" else ""
+    return (f'<?xml version="1.0" encoding="utf-8"?>\n<xmile version="1.0" xmlns="http://docs.oasis-open.org/xmile/ns/XMILE/v1.0">\n'
+            f'<header><name>c04shape</name><vendor>verif</vendor></header>\n<sim_specs method="Euler" time_units="Months"><start>0</start><stop>2</stop>{dt_xml}</sim_specs>\n'
+            f'{root}{model_open}<variables>\n'
+            f'<stock name="{S}"><eqn>10</eqn><inflow>{ri1}</inflow><inflow>{ri2}</inflow><outflow>{ro}</outflow></stock>\n'
+            f'<flow name="{I1}"><eqn>{u(A)} * 2</eqn></flow>\n<flow name="{I2}"><eqn>TIME</eqn><non_negative/></flow>\n'
+            f'<flow name="{O}"><eqn>{u(S).upper()} * 0.25</eqn><non_negative/></flow>\n<aux name="{A}"><eqn>0.5 + DT</eqn></aux>\n'
+            f'</variables></model>\n</xmile>\n')
+
+
+def probe_shapes(scratch):
+    """returns (ok, detail): trajectories of the stock under the three spellings, dt 0.1 and 1/4"""
+    from BPTK_Py.sdcompiler.compile import compile_xmile
+    import importlib.util
+    detail, ok = {}, True
+    for dt_xml, dt, n in (("<dt>0.1</dt>", 0.1, 20), ('<dt reciprocal="true">4</dt>', 0.25, 8)):
+        ref = [10.0]
+        for k in range(n):
+            t = k * dt
+            ref.append(ref[-1] + dt * (((0.5 + dt) * 2 + max(0, t)) - max(0, ref[-1] * 0.25)))
+        for variant, key in (("plain", "level"), ("names", "waterLevel"), ("module", "tankOne.waterLevel")):
+            _mod_counter[0] += 1
+            base = os.path.join(scratch, f"shape{_mod_counter[0]}")
+            with open(base + ".xmile", "w") as f:
+                f.write(shaped_doc(variant, dt_xml))
+            try:
+                compile_xmile(base + ".xmile", base + ".py", "py")
+                spec = importlib.util.spec_from_file_location(f"c04shape{_mod_counter[0]}", base + ".py")
+                mod = importlib.util.module_from_spec(spec); spec.loader.exec_module(mod)
+                sim = mod.simulation_model()
+                got = [float(sim.equation(key, 1.0 * round(k * dt, 10))) for k in range(n + 1)]
+            except BaseException as ex:
+                got = f"{type(ex).__name__}: {str(ex)[:150]}"
+            good = isinstance(got, list) and all(math.isclose(a, b, rel_tol=1e-12, abs_tol=1e-12) for a, b in zip(got, ref))
+            detail[f"{variant}@{dt}"] = "ok" if good else {"observed": got if not isinstance(got, list) else got[:6], "expected": ref[:6]}
+            if not good and ok:
+                ok = False
+                detail["first"] = {"variant": variant, "dt_xml": dt_xml, "key": key, "xmile": shaped_doc(variant, dt_xml)}
+    return ok, detail
+
+
 def lean_list(xs):
     return "[" + ", ".join(xs) + "]"
 
@@ -1067,6 +1123,9 @@ def _run2(chk, scratch, bp):
     lerp_rows, lerp_fail, lerp_count = probe_lerp(lmod, chk.rng.fork("c04-lerp"), chk.quick)
     lerp_rows_ok = all(r[3] for r in lerp_rows) and len(lerp_rows) > 0
     chk.notes["lerp_probe"] = {"calls": lerp_count, "kernel_rows": len(lerp_rows), "first_failure": lerp_fail}
+    shapes_ok, shapes_detail = probe_shapes(scratch)
+    chk.notes["shape_probe"] = {k: v for k, v in shapes_detail.items() if k != "first"}
+    chk.case(("shape-probe",), nontrivial=True)
     bprobes = probe_builder()
     bld_bad = [(len(i), len(o), lean, pred, text) for i, o, lean, pred, _w, text in bprobes if lean != pred]
     skel_reply = drive("C04", [f"skel|{ni}|{no}|" + " ".join(words) for ni, no, _t, words in skels])
@@ -1301,6 +1360,10 @@ def _run2(chk, scratch, bp):
             sf = spec_failure(small, ev) or (key, text, detail)
         chk.add_finding(sf[0], sf[1], {"case": small.to_json(), "xmile": xmile_doc(small.elems, small.start, small.stop, small.d),
                                        "detail": sf[2], "dt": dt_name(small.d)})
+    elif not shapes_ok:
+        f = shapes_detail["first"]
+        chk.add_finding("xmile-name-or-module-shape", f"the same stock/flow graph written with {f['variant']} ({f['dt_xml']}): stock {f['key']} = "
+                        f"{shapes_detail[f['variant'] + '@' + ('0.1' if '0.1' in f['dt_xml'] else '0.25')]}", {"kind": "shape", **f})
     elif lerp_fail is not None:
         chk.add_finding("xmile-lerp-segment", f"generated LERP({lerp_fail['x']!r}, {lerp_fail['points']}) = {lerp_fail['observed']!r}, linear interpolation on the segment "
                         f"that holds x gives {lerp_fail['expected']!r}", {"kind": "lerp", **lerp_fail})
@@ -1314,7 +1377,7 @@ def _run2(chk, scratch, bp):
         lab, got, want = bad_probe[0]
         chk.add_finding("xmile-not-euler", f"probe: stock with inflow 1, dt 0.1: S({lab!r}) = {got!r}, Euler gives {want!r}",
                         {"case": probe_case.to_json(), "detail": {"bad": bad_probe[:5]}, "dt": "0.1"})
-    have_input = first_fail is not None or not flow_gf_ok or not normalises or lerp_fail is not None      # a finding with a concrete failing input was reported above
+    have_input = first_fail is not None or not flow_gf_ok or not normalises or lerp_fail is not None or not shapes_ok      # a finding with a concrete failing input was reported above
     if (skel_bad or not builder_ok) and not have_input:
         a, b, text = (skel_bad or bld_tok_bad or [(x[0], x[1], x[4]) for x in bld_bad])[0]
         chk.add_finding("obligation", f"StockExpressions no longer builds the modelled net-flow node ({a} inflows / {b} outflows: {text[:200]}); "
@@ -1338,6 +1401,18 @@ def replay(path):
     import warnings
     warnings.filterwarnings("ignore")
     r = json.load(open(path))["replay"]
+    if r.get("kind") == "shape":
+        scratch = scratch_dir("bptkc04r")
+        cwd = os.getcwd()
+        try:
+            os.chdir(scratch)
+            ok_, detail = probe_shapes(scratch)
+            print({k: v for k, v in detail.items() if k != "first"})
+            return 0 if ok_ else 1
+        finally:
+            os.chdir(cwd)
+            import shutil
+            shutil.rmtree(scratch, ignore_errors=True)
     if r.get("kind") == "lerp":
         scratch = scratch_dir("bptkc04r")
         cwd = os.getcwd()
